@@ -122,7 +122,7 @@ def build(kind, text, variables, semantics=None, io_types=None, consts=None, sub
         spec.parse()
         if parse is not True and parse >= 2:
             spec.parse()                # parsing again replaces the first result
-        if pastify:
+        for _ in range(int(pastify)):        # True: once; 2: pastify() is called twice (the second call finds no future operator)
             spec.pastify()
     return spec
 
